@@ -444,9 +444,16 @@ func (in *interp) stmt(fr *frame, st ast.Stmt) bool {
 		if s.Init != nil {
 			in.stmt(fr, s.Init)
 		}
+		var earlier []ast.Expr // conditions of the clauses above (tagless switch): false when a later clause runs
 		for _, cl := range s.Body.List {
 			cc := cl.(*ast.CaseClause)
 			nf := len(in.facts)
+			if s.Tag == nil {
+				for _, prev := range earlier {
+					in.facts = append(in.facts, in.condFacts(fr, prev, true)...)
+				}
+				earlier = append(earlier, cc.List...)
+			}
 			if s.Tag == nil && len(cc.List) == 1 {
 				in.facts = append(in.facts, in.condFacts(fr, cc.List[0], false)...)
 			} else if len(cc.List) > 0 {
